@@ -192,6 +192,32 @@ pub fn parse(pasted: &[PastedLine]) -> RefProgram {
                 runtime_number = returns_value && down && spill && reuse && reload && up;
             }
         }
+        if flow == Flow::Ecall && ecall_number.is_none() && !runtime_number && p.instrs.len() >= 3 {
+            // ... or the number sits in a local that was overwritten without naming the slot:
+            //   [mv P, sp; li R, M; sw R, 0(P) | jal setslot<M>]; lw a7, 0(sp); li a0, N; ecall
+            let k = p.instrs.len();
+            let a0 = |r: &str| r == "a0" || r == "x10";
+            let a7 = |r: &str| r == "a7" || r == "x17";
+            let sp = |r: &str| r == "sp" || r == "x2";
+            let arg = p.instrs[k - 1].mnemonic == "li" && p.instrs[k - 1].operands.len() == 2 && a0(&p.instrs[k - 1].operands[0]);
+            let reload = p.instrs[k - 2].mnemonic == "lw" && p.instrs[k - 2].operands.len() == 2 && a7(&p.instrs[k - 2].operands[0]) && matches!(p.instrs[k - 2].operands[1].as_str(), "0(sp)" | "0(x2)");
+            if arg && reload {
+                let w = &p.instrs[k - 3];
+                if let Flow::Call(l) = &w.flow {
+                    if let Some(m) = l.strip_prefix("setslot").and_then(parse_int) {
+                        ecall_number = Some(m);
+                    }
+                } else if w.mnemonic == "sw" && w.operands.len() == 2 && k >= 5 {
+                    let (li, cp) = (&p.instrs[k - 4], &p.instrs[k - 5]);
+                    let ptr = w.operands[1].strip_prefix("0(").and_then(|t| t.strip_suffix(')')).unwrap_or("");
+                    let copies_sp = (cp.mnemonic == "mv" && cp.operands.len() == 2 && cp.operands[0] == ptr && sp(&cp.operands[1]))
+                        || (cp.mnemonic == "addi" && cp.operands.len() == 3 && cp.operands[0] == ptr && sp(&cp.operands[1]) && cp.operands[2] == "0");
+                    if !ptr.is_empty() && !sp(ptr) && copies_sp && li.mnemonic == "li" && li.operands.len() == 2 && li.operands[0] == w.operands[0] {
+                        ecall_number = parse_int(&li.operands[1]);
+                    }
+                }
+            }
+        }
         // interrupt handler installation: `la R, L` directly before a csr write to utvec (5)
         if matches!(mn.as_str(), "csrrw" | "csrw") {
             let csr_is_utvec = ops.iter().any(|o| o == "utvec" || o == "5");
